@@ -20,6 +20,9 @@ type schedScenario struct {
 	Sc   verifrt.Scenario
 }
 
+// schedSwitchBound, if > 0, bounds the non-default successor choices at blocking points (see rt/explore.go).
+var schedSwitchBound = 0
+
 // scenarioPB overrides the preemption bound for single scenarios (by name).
 var scenarioPB = map[string]int{}
 
@@ -33,6 +36,11 @@ type schedTotals struct {
 
 // exploreScenarios runs the DFS explorer over every scenario with iterated bounds and reports violations.
 func exploreScenarios(rep *Reporter, scs []schedScenario, maxPB, maxDB int, maxSteps int, deadline time.Time, sigOf func(scn string, v string, x *verifrt.Execution) string) *schedTotals {
+	return exploreScenariosShard(rep, scs, maxPB, maxDB, maxSteps, deadline, sigOf, 0, 0)
+}
+
+// exploreScenariosShard: with shards > 1 every scenario is explored for the first-level branches of this shard only.
+func exploreScenariosShard(rep *Reporter, scs []schedScenario, maxPB, maxDB int, maxSteps int, deadline time.Time, sigOf func(scn string, v string, x *verifrt.Execution) string, shard, shards int) *schedTotals {
 	tot := &schedTotals{Outcomes: map[string]int{}, PB: maxPB, DB: maxDB}
 	for _, sc := range scs {
 		sc := sc
@@ -42,7 +50,7 @@ func exploreScenarios(rep *Reporter, scs []schedScenario, maxPB, maxDB int, maxS
 		if b, ok := scenarioPB[sc.Name]; ok {
 			scPB = b
 		}
-		st := verifrt.Explore(verifrt.ExploreOpts{PreemptionBound: scPB, DeviationBound: maxDB, MaxSteps: maxSteps, Deadline: deadline}, sc.Sc, func(x *verifrt.Execution) {
+		st := verifrt.Explore(verifrt.ExploreOpts{PreemptionBound: scPB, DeviationBound: maxDB, MaxSteps: maxSteps, Deadline: deadline, Shard: shard, Shards: shards, SwitchBound: schedSwitchBound}, sc.Sc, func(x *verifrt.Execution) {
 			for _, v := range x.Violations {
 				sig := sigOf(sc.Name, v, x)
 				if seenViol[sig] && rep.Count() > 2000 {
@@ -86,6 +94,7 @@ func (t *schedTotals) coverage(extra map[string]any) map[string]any {
 		"outcomes":                      t.Outcomes,
 		"preemption_bound_completed":    t.PB,
 		"deviation_bound_completed":     t.DB,
+		"switch_bound":                  schedSwitchBound,
 		"replay_divergences":            t.Divergences,
 		"horizon_hits":                  t.Horizons,
 		"samples":                       t.Samples,
@@ -129,6 +138,10 @@ func crashSiteOf(stack string) string {
 	return "unknown"
 }
 
+// shardByBranch makes exploreSharded split every scenario's exploration tree (first-level branches) instead of
+// distributing whole scenarios.
+var shardByBranch = false
+
 // shardStdout is where a shard worker writes its result (its own stdout is silenced: the implementation prints).
 var shardStdout *os.File
 
@@ -151,12 +164,17 @@ func exploreSharded(rep *Reporter, id string, scs []schedScenario, pb, db, maxSt
 		}
 		var mine []schedScenario
 		for j, s := range scs {
-			if j%n == i {
+			if j%n == i || shardByBranch {
 				mine = append(mine, s)
 			}
 		}
 		srep := &Reporter{Property: id, bySig: map[string][]*Violation{}}
-		tot := exploreScenarios(srep, mine, pb, db, maxSteps, time.Now().Add(budget), sigOf)
+		var tot *schedTotals
+		if shardByBranch {
+			tot = exploreScenariosShard(srep, mine, pb, db, maxSteps, time.Now().Add(budget), sigOf, i, n)
+		} else {
+			tot = exploreScenarios(srep, mine, pb, db, maxSteps, time.Now().Add(budget), sigOf)
+		}
 		var vs []*Violation
 		for _, l := range srep.bySig {
 			for _, v := range l {
@@ -174,7 +192,7 @@ func exploreSharded(rep *Reporter, id string, scs []schedScenario, pb, db, maxSt
 		os.Exit(0)
 	}
 	n := shardCount()
-	if n > len(scs) {
+	if n > len(scs) && !shardByBranch {
 		n = len(scs)
 	}
 	outs := make([]shardResult, n)
